@@ -61,7 +61,7 @@ fn gen_edit(rng: &mut Rng, pool: &mut Vec<String>, hostile: bool) -> EditSpec {
             s
         }
     };
-    let mut s = |rng: &mut Rng, pool: &mut Vec<String>| -> String {
+    let s = |rng: &mut Rng, pool: &mut Vec<String>| -> String {
         if hostile { gen_string(rng, pool) } else { plain(rng, pool) }
     };
     match style {
@@ -614,7 +614,7 @@ pub fn run(args: &Args) {
     let (seed, shard) = (rep.seed, rep.shard);
     let scratch = Scratch::new("c13");
     let only = args.opt("case").map(|c| c.parse::<u64>().unwrap());
-    let mut record = |rep: &mut Report, what: &str, case_no: u64, h: u64, nontrivial: bool, desc: serde_json::Value, res: Result<(), (String, String)>| {
+    let record = |rep: &mut Report, what: &str, case_no: u64, h: u64, nontrivial: bool, desc: serde_json::Value, res: Result<(), (String, String)>| {
         rep.evaluations += 1;
         if nontrivial {
             rep.nontrivial.insert(h);
